@@ -104,6 +104,18 @@ theorem token_variant_example : applyFacet .collapse " \n abc\t".toList = "abc".
 theorem base64_rt (bs : List Nat) (h : ∀ b ∈ bs, b < 256) : Base64.decode (Base64.encode bs) = some bs :=
   Base64.base64_rt bs h
 
+/-- what the implementation's reader does (`b64decode` skips white space): the own encoding reads back… -/
+theorem base64_lenient_rt (bs : List Nat) (h : ∀ b ∈ bs, b < 256) : Base64.decodeLenient (Base64.encode bs) = some bs :=
+  Base64.base64_lenient_rt bs h
+
+/-- …and so does every legal variant of it: the canonical encoding with white space inserted anywhere
+(MIME line wrapping, space-separated groups, surrounding white space) -/
+theorem base64_variants (bs : List Nat) (h : ∀ b ∈ bs, b < 256) (cs : List Char)
+    (hcs : cs.filter (fun c => !Base64.isSpace c) = Base64.encode bs) : Base64.decodeLenient cs = some bs :=
+  Base64.base64_ws_rt bs h cs hcs
+
+example : Base64.decodeLenient "QUJD\nREVG IA==\t".toList = some [65, 66, 67, 68, 69, 70, 32] := by decide +kernel
+
 theorem floatspecial_rt (v : FloatSpecial) : decFloatSpecial (encFloatSpecial v) = some v := by
   cases v <;> decide
 
